@@ -7,20 +7,22 @@ AllVals == UNION {DOMAIN v : v \in ValSets}
 MInit == Init /\ hist = << [act |-> "Init", res |-> "ok", vals |-> InitVals] >>
 (* mostly well-formed headers with one aspect perturbed *)
 GenHeader ==
-  \E th \in {IF Pick(1..4) = 1 THEN Pick(Heights \cup {1}) ELSE Pick(DOMAIN cons)} :
-  \E h \in {IF Pick(1..5) = 1 THEN Pick(Heights) ELSE Pick({x \in Heights : x > th} \cup {Pick(Heights)})} :
+  \E th \in {IF Pick(1..4) = 1 THEN Pick(Keys) ELSE Pick(DOMAIN cons)} :
+  \E h \in {IF Pick(1..5) = 1 THEN Pick(Heights) ELSE Pick({x \in Heights : x > NumOf(th)} \cup {Pick(Heights)})} :
   \E tv \in {IF th \in DOMAIN cons /\ Pick(1..5) # 1 THEN cons[th].next ELSE Pick(ValSets)} :
-  \E vs \in {IF h = th + 1 /\ th \in DOMAIN cons /\ Pick(1..5) # 1 THEN cons[th].next ELSE Pick(ValSets)} :
+  \E vs \in {IF h = NumOf(th) + 1 /\ th \in DOMAIN cons /\ Pick(1..5) # 1 THEN cons[th].next ELSE Pick(ValSets)} :
   \E sg \in {IF Pick(1..3) = 1 THEN Pick(SUBSET AllVals) ELSE (DOMAIN vs) \cup (IF Pick(1..2) = 1 THEN DOMAIN tv ELSE {})} :
   \E t \in {IF th \in DOMAIN cons /\ Pick(1..4) # 1 /\ {x \in Times : x > cons[th].time /\ x < now + Drift} # {}
-             THEN Pick({x \in Times : x > cons[th].time /\ x < now + Drift}) ELSE Pick(Times)} : \E nx \in {Pick(ValSets)} : \E rv \in {IF Pick(1..8) = 1 THEN 1 ELSE 0} : \E rt \in {Pick(Roots)} :
+             THEN Pick({x \in Times : x > cons[th].time /\ x < now + Drift}) ELSE Pick(Times)} : \E nx \in {Pick(ValSets)} : \E rv \in {IF Pick(1..8) = 1 THEN 1 - RevOf(th) ELSE RevOf(th)} : \E rt \in {Pick(Roots)} :
      LET hd == [height |-> h, rev |-> rv, time |-> t, vals |-> vs, next |-> nx, signers |-> sg, th |-> th, tvals |-> tv, root |-> rt] IN
      UpdateEff(hd) /\ last' = [act |-> "Update", res |-> Res(Accept(hd)), hd |-> hd]
 MNext ==
   /\ Len(hist) < Depth + 1
-  /\ \E w \in {Pick(1..5)} :
-       \/ w <= 4 /\ GenHeader
-       \/ w >= 5 /\ \E d \in {IF Pick(1..4) = 1 THEN 2 ELSE 1} : TickEff(d) /\ last' = [act |-> "Tick", res |-> "ok", d |-> d]
+  /\ \E w \in {Pick(1..11)} :
+       \/ w = 11 /\ \E r \in {IF Pick(1..4) = 1 THEN 0 ELSE 1}, h \in {Pick(Heights)}, nx \in {Pick(ValSets)}, rt \in {Pick(Roots)} :
+              UpgradeEff(r, h, nx, rt) /\ last' = [act |-> "Upgrade", res |-> "ok", rev |-> r, h |-> h, next |-> nx, root |-> rt]
+       \/ w <= 8 /\ GenHeader
+       \/ w \in {9, 10} /\ \E d \in {IF Pick(1..4) = 1 THEN 2 ELSE 1} : TickEff(d) /\ last' = [act |-> "Tick", res |-> "ok", d |-> d]
   /\ hist' = Append(hist, last')
 MSpec == MInit /\ [][MNext]_<<vars, hist>>
 Emit == Len(hist) = Depth + 1 => PrintT(<<"MBT", ToJson(hist)>>)
